@@ -5,6 +5,7 @@ import RV.C08.LemMods
 import RV.C08.LemAgg
 import RV.C08.LemAcc
 import RV.C08.LemRewrite
+import RV.C08.LemCal
 /-  C08 — helper lemmas, split over LemSort (stable sort), LemOrder (key comparison is a strict weak
     order), LemChain (chain of sorts, SPARQL refinement), LemMods (slice/distinct/reduced/project),
-    LemAgg (grouping), LemAcc (accumulators), LemRewrite (translateAggregates). -/
+    LemAgg (grouping), LemAcc (accumulators), LemRewrite (translateAggregates), LemCal (CPython calendar ordinals). -/
